@@ -623,6 +623,11 @@ def _build_doc(font_model, enc_value, enc_stream, subtype, rnd, strings, size, x
     extra[20] = C.descendant(subtype, font_model["coll"], W.R(21), W=w_arr, DW=C._num(font_model["DW"]) if font_model["DW"] is not None else None,
                              W2=w2_arr, DW2=[C._num(v) for v in font_model["DW2"]] if font_model["DW2"] is not None else None,
                              cidtogid=W.N("Identity") if (subtype == "CIDFontType2" and rnd.random() < 0.5) else None)
+    # the metrics entries of the CIDFont may be indirect objects
+    for k, (key, num) in enumerate(((b"DW", 40), (b"DW2", 41), (b"W", 42), (b"W2", 43))):
+        if extra[20].get(key) is not None and rnd.random() < 0.2:
+            extra[num] = extra[20][key]
+            extra[20][key] = W.R(num)
     tu_ref = None
     if tu_entries is not None:
         prog = C.emit_tounicode(tu_entries, font_model["tu_nbytes"], rnd, codespaces=font_model.get("tu_codespaces"))
